@@ -23,6 +23,8 @@ class TimeLike (τ : Type) where
   repr : τ → String
   /-- for traces: numerator/denominator (floats: bit pattern, 0) -/
   toPair : τ → Int × Int
+  /-- Python's builtin `sum(values)` (start `0`) -/
+  sum : List τ → τ
 
 namespace TimeLike
 variable {τ : Type} [TimeLike τ]
@@ -42,6 +44,20 @@ instance : TimeLike Rat where
   ofInt i := (i : Rat)
   repr r := if r.den = 1 then toString r.num else s!"{r.num}/{r.den}"
   toPair r := (r.num, r.den)
+  sum l := l.foldl (· + ·) 0
+
+/-- CPython >= 3.12 `sum()` over floats (bltinmodule.c): Neumaier's compensated summation; the
+first float is added to the integer start value exactly -/
+def pySumFloat : List Float → Float
+  | [] => 0
+  | x :: xs =>
+    let rec go : List Float → Float → Float → Float
+      | [], f, c => if c != 0 && c.isFinite then f + c else f
+      | y :: ys, f, c =>
+        let t := f + y
+        let c := if f.abs >= y.abs then c + ((f - t) + y) else c + ((y - t) + f)
+        go ys t c
+    go xs x 0
 
 instance : TimeLike Float where
   zero := 0
@@ -54,6 +70,7 @@ instance : TimeLike Float where
   ofInt i := Float.ofInt i
   repr f := toString f.toBits
   toPair f := (f.toBits.toNat, 0)
+  sum := pySumFloat
 
 abbrev ActId := Nat
 abbrev SigId := Nat
